@@ -29,6 +29,12 @@ pub struct SeqScenario {
     pub stop_anywhere: bool,
     pub base: Vec<&'static str>,
     pub prefill: usize,
+    /// Reachability mode: prune histories at abstract states that were
+    /// already reached at the same or a smaller depth (shared visited map).
+    pub reach: Option<std::sync::Arc<std::sync::Mutex<std::collections::HashMap<u64, u16>>>>,
+    /// Build the pool with (one hour) wait/create/recycle timeouts and the
+    /// tokio runtime: the timeout wrappers are on every path but never fire.
+    pub timeouts: bool,
 }
 
 impl SeqScenario {
@@ -50,7 +56,18 @@ impl SeqScenario {
             stop_anywhere: true,
             base: base.to_vec(),
             prefill: 0,
+            reach: None,
+            timeouts: false,
         }
+    }
+
+    /// Turns the scenario into a reachability exploration: environment answers
+    /// and cancellations are free choices, `depth` is only a horizon.
+    pub fn reachability(mut self, horizon: usize) -> Self {
+        self.cfg.free_faults = true;
+        self.depth = horizon;
+        self.reach = Some(Default::default());
+        self
     }
 }
 
@@ -151,6 +168,62 @@ fn fingerprint(pool: &Pool<Mgr>, tasks: &[STask]) -> u64 {
     h.finish()
 }
 
+/// Canonical abstract state for reachability pruning. Everything the pool's
+/// and the oracles' future behaviour depends on, with object and task
+/// identities replaced by their position and the unbounded counters
+/// (recycle counts, error numbers, ids) left out:
+/// * pool: permits, closed, size, max_size, owed, idle length, users;
+/// * every idle object in queue order, every checked-out object per holder
+///   (holders in creation order), every object a pending get has in hand:
+///   rejected / in-flight flags, detach count, "handed out before", pending
+///   pipeline steps;
+/// * every pending get in creation order (= semaphore queue order): blocking
+///   or not, woken or not, which manager/hook call it is suspended in;
+/// * limit in force, close / resize / abandonment flags, pending gates.
+/// Destroyed objects and objects handed over to the caller are left out:
+/// their ledger is judged by the Stop branch of the first visitor.
+fn canon(pool: &Pool<Mgr>, tasks: &[STask], closes: usize) -> u64 {
+    let mut h = std::collections::hash_map::DefaultHasher::new();
+    pool.verif_snapshot().hash(&mut h);
+    w(|w| {
+        let obj = |id: usize, h: &mut std::collections::hash_map::DefaultHasher| {
+            let o = &w.objs[id];
+            (o.alive, o.in_flight, o.rejected, o.detach, o.handouts > 0, &o.steps).hash(h);
+        };
+        0xA1u8.hash(&mut h);
+        for id in &w.ref_idle {
+            obj(*id, &mut h);
+        }
+        // pool-owned alive objects that are not in the reference queue (in flight)
+        0xA2u8.hash(&mut h);
+        for (id, o) in w.objs.iter().enumerate() {
+            if o.alive && o.loc == Loc::Pool && !w.ref_idle.contains(&id) {
+                obj(id, &mut h);
+            }
+        }
+        0xA3u8.hash(&mut h);
+        for (_who, objs) in w.hands.iter() {
+            if objs.is_empty() {
+                continue;
+            }
+            0xB0u8.hash(&mut h);
+            for o in objs {
+                obj(o.id, &mut h);
+            }
+        }
+        0xA4u8.hash(&mut h);
+        for t in tasks {
+            let g = &w.gets[t.gi];
+            (g.nonblocking, g.in_env, t.task.woken(), g.tried.len(), g.env_errs.len(), g.started_after_close, g.epoch_at_start == w.resize_epoch, g.resize_in_progress_at_start).hash(&mut h);
+        }
+        (w.creating, w.limit, w.limit_alt, w.close_begun, w.close_returned, w.resizes_begun > 0, w.resizes_begun == w.resize_epoch, w.abandoned > 0, w.abandon_mark, w.overlap).hash(&mut h);
+    });
+    let gates: Vec<String> = sched::pending_gates().into_iter().map(|g| g.1).collect();
+    gates.hash(&mut h);
+    closes.min(2).hash(&mut h);
+    h.finish()
+}
+
 /// Checks evaluated after every step of a history.
 fn after_step(pool: &Pool<Mgr>, tasks: &[STask]) {
     let st = pool.status();
@@ -193,7 +266,15 @@ fn after_step(pool: &Pool<Mgr>, tasks: &[STask]) {
 pub fn run_seq(sc: &SeqScenario) -> Outcome {
     sched::begin();
     init_world(sc.cfg.clone(), &sc.base);
-    let pool = build_pool();
+    // a paused clock that nobody advances: configured timeouts never expire
+    let rt = if sc.timeouts { Some(tokio::runtime::Builder::new_current_thread().enable_time().start_paused(true).build().expect("runtime")) } else { None };
+    let _enter = rt.as_ref().map(|r| r.enter());
+    let pool = if sc.timeouts {
+        let hour = Some(std::time::Duration::from_secs(3600));
+        build_pool_with(Timeouts { wait: hour, create: hour, recycle: hour }, Some(deadpool::Runtime::Tokio1)).expect("build with runtime")
+    } else {
+        build_pool()
+    };
     w(|w| w.handles = 1);
     if sc.prefill > 0 {
         w(|w| {
@@ -225,6 +306,7 @@ pub fn run_seq(sc: &SeqScenario) -> Outcome {
     let mut next_who = 1usize;
     let mut closed = false;
     let mut closes = 0usize;
+    let mut pruned = false;
     let mut steps = 0usize;
     while steps < sc.depth && w(|w| w.viol.is_empty()) {
         // enabled operations, benign first
@@ -267,7 +349,7 @@ pub fn run_seq(sc: &SeqScenario) -> Outcome {
         }
         if sc.cancel {
             for t in tasks.iter() {
-                ops.push((SOp::Cancel(t.who), Cost::F));
+                ops.push((SOp::Cancel(t.who), if sc.reach.is_some() { Cost::FREE } else { Cost::F }));
             }
         }
         if sc.stop_anywhere || ops.is_empty() {
@@ -290,9 +372,17 @@ pub fn run_seq(sc: &SeqScenario) -> Outcome {
                 next_who += 1;
                 let gi = w(|w| w.begin_get(who, nb));
                 let p = pool.clone();
+                let use_pool_level = sc.timeouts;
                 let task = Task::new(async move {
-                    let t = if nb { nb_timeouts() } else { Timeouts::new() };
-                    p.timeout_get(&t).await
+                    if nb {
+                        let mut t = if use_pool_level { p.timeouts() } else { Timeouts::new() };
+                        t.wait = Some(std::time::Duration::ZERO);
+                        p.timeout_get(&t).await
+                    } else if use_pool_level {
+                        p.get().await
+                    } else {
+                        p.timeout_get(&Timeouts::new()).await
+                    }
                 });
                 let mut t = STask { who, gi, task };
                 if !poll_task(&mut t) {
@@ -361,6 +451,52 @@ pub fn run_seq(sc: &SeqScenario) -> Outcome {
             after_step(&pool, &tasks);
             note_state(fingerprint(&pool, &tasks));
         }
+        if let Some(visited) = &sc.reach {
+            // replays (tracing on) are never pruned, so violations reproduce
+            if w(|w| w.viol.is_empty()) && !explorer::tracing() {
+                let key = canon(&pool, &tasks, closes);
+                let mut v = visited.lock().unwrap();
+                match v.get(&key) {
+                    Some(d) if (*d as usize) <= steps => {
+                        pruned = true;
+                    }
+                    _ => {
+                        v.insert(key, steps as u16);
+                    }
+                }
+            }
+            if pruned {
+                break;
+            }
+        }
+    }
+    if pruned {
+        // somebody else expands this state: clean up without judging anything
+        for mut t in tasks.drain(..) {
+            let who = t.who;
+            guarded_as(who, || t.task.cancel());
+            w(|w| w.end_op(who));
+        }
+        let whos: Vec<usize> = w(|w| w.hands.keys().copied().collect());
+        for who in whos {
+            loop {
+                let mut more = false;
+                guarded_as(who, || more = op_release(who));
+                if !more {
+                    break;
+                }
+            }
+        }
+        w(|w| w.viol.clear());
+        drop_handle(0, pool);
+        let mut world = drop_world().unwrap();
+        let keep = std::mem::take(&mut world.keep);
+        let hands = std::mem::take(&mut world.hands);
+        drop(world);
+        drop(hands);
+        drop(keep);
+        sched::end();
+        return Outcome { obs: 0, violations: vec![] };
     }
     // end of history: abandon what is pending, return everything, probe
     if w(|w| w.viol.is_empty()) {
